@@ -295,11 +295,21 @@ impl<'map> ManiaPerformance<'map> {
                 }
 
                 // All but one hitresults given
-                (None, Some(_), Some(_), Some(_), Some(_)) => n320 = n_remaining,
-                (Some(_), None, Some(_), Some(_), Some(_)) => n300 = n_remaining,
-                (Some(_), Some(_), None, Some(_), Some(_)) => n200 = n_remaining,
-                (Some(_), Some(_), Some(_), None, Some(_)) => n100 = n_remaining,
-                (Some(_), Some(_), Some(_), Some(_), None) => n50 = n_remaining,
+                (None, Some(_), Some(_), Some(_), Some(_)) => {
+                    n320 = n_remaining.saturating_sub(n300 + n200 + n100 + n50);
+                }
+                (Some(_), None, Some(_), Some(_), Some(_)) => {
+                    n300 = n_remaining.saturating_sub(n320 + n200 + n100 + n50);
+                }
+                (Some(_), Some(_), None, Some(_), Some(_)) => {
+                    n200 = n_remaining.saturating_sub(n320 + n300 + n100 + n50);
+                }
+                (Some(_), Some(_), Some(_), None, Some(_)) => {
+                    n100 = n_remaining.saturating_sub(n320 + n300 + n200 + n50);
+                }
+                (Some(_), Some(_), Some(_), Some(_), None) => {
+                    n50 = n_remaining.saturating_sub(n320 + n300 + n200 + n100);
+                }
 
                 // At least two hitresults are unknown
                 _ => {
